@@ -7,7 +7,8 @@ T = "mitmproxy.proxy.layers.tcp:TCPLayer"
 U = "mitmproxy.proxy.layers.udp:UDPLayer"
 
 
-def mk_tcp_layer(vc, with_flow, cstate=None, sstate=None, handler="relay_messages"):
+def mk_tcp_layer(vc, with_flow, cstate=None, sstate=None, handler="relay_messages", awaiting=("client-id", "server-id")):
+    """awaiting: ids of the sides whose close event the layer has not processed yet (TCPLayer.open_sides)"""
     client = mk_client(vc, state=cstate)
     server = mk_server(vc, state=sstate, timestamp_start=2.0)
     ctx = mk_context(vc, client, server)
@@ -16,8 +17,13 @@ def mk_tcp_layer(vc, with_flow, cstate=None, sstate=None, handler="relay_message
         flow = vc.new("mitmproxy.tcp:TCPFlow", client_conn=client, server_conn=server, messages=vc.list([]), live=True,
                       error=None, id="flow-id", intercepted=False, marked="", is_replay=None, metadata=vc.dict([]), comment="",
                       timestamp_created=1.0, _backup=None)
-    layer = vc.new(T, context=ctx, flow=flow, debug=None, _paused=None, _paused_event_queue=None)
+    layer = vc.new(T, context=ctx, flow=flow, debug=None, _paused=None, _paused_event_queue=None, open_sides=vc.set(list(awaiting)))
     return layer, client, server, flow
+
+
+def _open_sides(vc, layer):
+    s = layer.open_sides
+    return sorted((x.concrete() if hasattr(x, "concrete") else x) for x in (s.items if vc.mode == "sym" else s))
 
 
 @scenario("tcp.relay.data", functions=[T + ".relay_messages"])
@@ -80,12 +86,20 @@ def s_tcp_data(vc):
 
 @scenario("tcp.relay.close", functions=[T + ".relay_messages"])
 def s_tcp_close(vc):
+    """A close of one side: while the close event of the other side has not been *processed by the layer* (it is still in
+    open_sides - whatever the connection states say: the server updates them as soon as a peer closes, possibly while the
+    events are still queued behind a pending hook), the close is propagated as a half-close and relaying goes on; the flow
+    ends (one end hook, both sides closed, state done) exactly when the last awaited close event is processed."""
     from mitmproxy.connection import ConnectionState as S
     with_flow = vc.case("with_flow", [True, False])
     from_client = vc.case("from_client", [True, False])
+    other_awaited = vc.case("close_event_of_other_side_still_to_come", [True, False])
+    src_awaited = vc.case("first_close_event_of_this_side", [True, False])
     cstate = conn_state(vc, "cstate")
     sstate = conn_state(vc, "sstate")
-    layer, client, server, flow = mk_tcp_layer(vc, with_flow, cstate, sstate)
+    ids = ("client-id", "server-id") if from_client else ("server-id", "client-id")
+    awaiting = ([ids[0]] if src_awaited else []) + ([ids[1]] if other_awaited else [])
+    layer, client, server, flow = mk_tcp_layer(vc, with_flow, cstate, sstate, awaiting=awaiting)
     src, dst = (client, server) if from_client else (server, client)
     ev = vc.new("mitmproxy.proxy.events:ConnectionClosed", connection=src)
     out = vc.call(T + ".relay_messages", layer, ev)
@@ -93,14 +107,12 @@ def s_tcp_close(vc):
     if not out.ok:
         return
     tr = out.trace
-    can_read = lambda st: (st % 2) == 1 if vc.mode == "sym" else bool(st & S.CAN_READ)  # CAN_READ is bit 0
-    c_read = SBool(cstate.t % 2 == 1) if vc.mode == "sym" else bool(cstate & S.CAN_READ)
-    s_read = SBool(sstate.t % 2 == 1) if vc.mode == "sym" else bool(sstate & S.CAN_READ)
-    other_can_read = Or(c_read, s_read)
     kinds = trace_kinds(tr)
     done = (layer.fields if vc.mode == "sym" else layer.__dict__).get("_handle_event")
-    if vc.branch(other_can_read):
-        # half-close is propagated, the layer keeps relaying, no end hook
+    vc.ensure("close_event_accounted_for", _open_sides(vc, layer) == ([ids[1]] if other_awaited else []))
+    if other_awaited:
+        # half-close is propagated, the layer keeps relaying, no end hook - also when the other side's state already says
+        # 'closed': its data and close event are still to be processed
         vc.ensure("halfclose.trace", kinds == ["CloseTcpConnection"])
         if kinds == ["CloseTcpConnection"]:
             vc.ensure("halfclose.target", tr[0].connection is dst)
@@ -143,7 +155,11 @@ def s_tcp_done(vc):
 def s_tcp_start(vc):
     with_flow = vc.case("with_flow", [True, False])
     already_open = vc.case("server_open", [True, False])
-    layer, client, server, flow = mk_tcp_layer(vc, with_flow)
+    from mitmproxy.connection import ConnectionState as S
+    client_readable = vc.case("client_still_readable", [True, False])      # the client may have half-closed during the start hook
+    server_readable = vc.case("server_still_readable", [True, False]) if already_open else True
+    layer, client, server, flow = mk_tcp_layer(vc, with_flow, cstate=S.OPEN if client_readable else S.CAN_WRITE,
+                                               sstate=(S.OPEN if server_readable else S.CAN_WRITE) if already_open else S.CLOSED, awaiting=())
     server.timestamp_start = 2.0 if already_open else None
     fails = vc.sym_bool("connect_fails")
     errmsg = vc.sym_str("errmsg")
@@ -151,7 +167,10 @@ def s_tcp_start(vc):
 
     def on_yield(cmd):
         if is_cmd(cmd, "OpenConnection"):
-            return If(fails, errmsg, None) if vc.mode == "sym" else (errmsg if fails else None)
+            if not vc.branch(fails):
+                server.state = S.OPEN          # what the proxy server does before it reports success
+                return None
+            return errmsg
         return None
 
     ev = vc.new("mitmproxy.proxy.events:Start")
@@ -174,6 +193,8 @@ def s_tcp_start(vc):
         vc.ensure("ok.state_relay", h is not None and _is_method(vc, h, "relay_messages"))
         vc.ensure("ok.start_hook_iff_flow", kinds.count("TcpStartHook") == (1 if with_flow else 0))
         vc.ensure("ok.opens_iff_needed", kinds.count("OpenConnection") == (0 if already_open else 1))
+        # the layer awaits a close event from exactly the sides that are readable when relaying begins
+        vc.ensure("ok.awaits_close_of_exactly_the_readable_sides", _open_sides(vc, layer) == sorted((["client-id"] if client_readable else []) + (["server-id"] if server_readable else [])))
 
 
 # ---------------------------------------------------------------------------------------------
@@ -379,4 +400,74 @@ def bounded(tier, seed):
                             halves = [c for c, half in d.closed if half]
                             if len(halves) != 1:
                                 b.fail("tcp.half_close_propagated", inp, f"closed={d.closed}")
+    _bounded_pending_hooks(b, tier)
     return b
+
+
+def _bounded_pending_hooks(b, tier):
+    """Schedules: tcp_message hooks stay pending (slow async addon, intercepted flow) while further data and closes arrive. As in
+    the real proxy server, a close updates the connection state at once while its event queues behind the pending hook. Every
+    byte a peer sent before its own close must still reach the other peer, in order, and the flow ends exactly once, after the
+    last close has been processed."""
+    import itertools
+    from mitmproxy.proxy.layers import tcp as LT
+    from props import sansio
+    depth = 5 if tier == "quick" else 7
+    syms = ["dc", "ds", "cc", "cs", "R"]
+    b.rule += ("; schedules with pending hooks: sequences over {data from client, data from server, close client, close server, complete the oldest pending "
+               "tcp_message hook} for the real TCPLayer x addon policy {keep, edit}, every tcp_message hook held until released, all released at the end")
+    b.bound += f"; pending-hook schedules of length <= {depth}"
+    for policy in ("keep", "edit"):
+        for n in range(2, depth + 1):
+            for seq in itertools.product(syms, repeat=n):
+                if "R" not in seq and not ("cc" in seq or "cs" in seq):
+                    continue
+                ctx = sansio.context_for()
+                ctx.server.address = ("example.com", 80)
+                lay = LT.TCPLayer(ctx)
+
+                def pol(hook):
+                    if policy == "edit" and hook.name == "tcp_message":
+                        m = hook.flow.messages[-1]
+                        m.content = m.content + b"!"
+
+                d = sansio.Driver(lay, hook_policy=pol, hold_hooks=lambda h: h.name == "tcp_message")
+                d.start()
+                expect = {ctx.client.id: b"", ctx.server.id: b""}
+                closed = set()
+                k = 0
+                for s_ in seq:
+                    k += 1
+                    payload = bytes([64 + k])
+                    if s_ in ("dc", "ds"):
+                        src, dst = (ctx.client, ctx.server) if s_ == "dc" else (ctx.server, ctx.client)
+                        if src.id in closed:
+                            continue
+                        d.data(src, payload)
+                        expect[dst.id] += payload + (b"!" if policy == "edit" else b"")
+                    elif s_ in ("cc", "cs"):
+                        src = ctx.client if s_ == "cc" else ctx.server
+                        if src.id in closed:
+                            continue
+                        closed.add(src.id)
+                        d.close(src)
+                    else:
+                        d.release()
+                while d.release():
+                    pass
+                b.case(("tcp-pending", policy, seq), nontrivial=len(closed) > 0 and "R" in seq)
+                inp = {"proto": "tcp", "policy": policy, "seq": list(seq), "note": "tcp_message hooks held until R / the end"}
+                for conn in (ctx.client, ctx.server):
+                    if d.bytes_to(conn) != expect[conn.id]:
+                        b.fail("tcp.pending_hooks.no_data_lost", inp, f"to {'client' if conn is ctx.client else 'server'}: got {d.bytes_to(conn)!r} expected {expect[conn.id]!r}")
+                names = d.hook_names()
+                n_end = names.count("tcp_end") + names.count("tcp_error")
+                if n_end != (1 if len(closed) == 2 else 0):
+                    b.fail("tcp.pending_hooks.exactly_one_end_after_both_closes", inp, f"hooks={names}")
+                rec = [m.content for m in lay.flow.messages]
+                if b"".join(rec) != b"".join(c for _, c in d.sent_chunks):
+                    b.fail("tcp.pending_hooks.recorded_equals_sent", inp, f"recorded={rec} sent={d.sent_chunks}")
+                if len(closed) == 1:
+                    halves = [c for c, half in d.closed if half]
+                    if len(halves) != 1:
+                        b.fail("tcp.pending_hooks.half_close_propagated", inp, f"closed={d.closed}")
